@@ -437,7 +437,14 @@ def c11(tier, seed):
         scs3 += [x for x in s1 if x["ctm"]["m"] != [1, 0, 0, 1, 0, 0] and x.get("via", "fill") == "fill"
                  and not (kind == "sweep" and x["src"]["start_angle"] != 0)]
     simple_validate("C11", v, scs3, "shade", "Trace_Shade", sigfn=lambda sc, tup: {"fam": "shade", "kind": sc["src"]["kind"]})
-    v.samples = [scs[0], scs[-1], scs2[0], scs3[0]]
+    # stroking under T is the image under T of the user-space stroke: polylines (Stroke.tla region mapped by T, 1/2 px) and
+    # curved paths (tube of half the scaled width around the mapped curve, 1 px) under non-identity transforms incl. mirrors
+    ident = {"m": [1, 0, 0, 1, 0, 0], "mden": 1}
+    s4 = [x for x in drive("C11", "stroke", seed + 11, 900 if th else 150) if x.get("ctm", ident)["m"] != ident["m"]]
+    simple_validate("C11", v, s4, "stroke", "Trace_Stroke", sigfn=stroke_sig, timeout=3000)
+    s5 = [x for x in drive("C11", "stroke-float", seed + 11, 600 if th else 60) if x["ctm"]["m"] != [1.0, 0.0, 0.0, 1.0, 0.0, 0.0]]
+    simple_validate("C11", v, s5, "cstroke", "Trace_StrokeCurve", sigfn=stroke_sig, timeout=3000)
+    v.samples = [scs[0], scs[-1], scs2[0], scs3[0]] + s4[:1] + s5[:1]
     return v.finish()
 
 
@@ -461,6 +468,7 @@ def c05(tier, seed):
     scs += canvas_gen("C05", v, "clip", 5, 3, draws=2, simulate=5000 if th else 900, depth=9, seed=seed, salt=seed)
     # clips in force while drawing inside a layer at an offset (the clip mask is surface-sized, the layer is not)
     scs += canvas_gen("C05", v, "layerclip", 3, 6 if th else 2, salt=seed + 2)
+    scs += canvas_gen("C05", v, "cross", 3, 4 if th else 1, salt=seed + 3)
     scs += drive("C05", "canvas", seed + 200, 2500 if th else 300)
     v.exhaustive = True
     scs += repo_test_scenarios("C05", v)
@@ -473,7 +481,7 @@ def c05(tier, seed):
 def c06(tier, seed):
     v = Verdicts("C06", tier, seed)
     th = tier == "thorough"
-    v.rule = ("Gen_Canvas(layer): properly nested histories of push_layer (5 opacities x 28 blend modes), clip rects at offsets / disjoint / "
+    v.rule = ("Gen_Canvas(layer): properly nested histories (and, FOCUS=cross, histories whose clip and layer pops cross) of push_layer (5 opacities x 28 blend modes), clip rects at offsets / disjoint / "
               "inverted, clip paths and a transform, with drawing calls (incl. clear) inside; every open layer has a shadow target "
               "(transparent, same transform and clip) so the popped layer's content is observed, and pop_layer is validated as "
               "Composite(blend, layer pixel, previous, opacity, clip); the visible surface must not change while a layer is open; depths and "
@@ -484,6 +492,10 @@ def c06(tier, seed):
     v.extra["ip_refinement"] = "MC_CanvasImpl (layers at offsets, pop_layer through the surface-sized opacity mask): %d states" % r.distinct
     scs = canvas_gen("C06", v, "layer", 2, 10 if th else 3, salt=seed)
     scs += canvas_gen("C06", v, "layerclip", 3, 6 if th else 2, salt=seed + 1)
+    # pops that cross: a clip pushed before a layer popped while the layer is open, a layer popped under clips pushed inside it
+    scs += canvas_gen("C06", v, "cross", 3, 6 if th else 2, salt=seed + 2)
+    scs += canvas_gen("C06", v, "cross", 4, 2, salt=seed + 3) if th else []
+    scs += extra_scenarios("C06")
     scs += canvas_gen("C06", v, "layer", 5, 3, draws=3, simulate=5000 if th else 900, depth=10, seed=seed, salt=seed)
     scs += drive("C06", "canvas", seed + 300, 2500 if th else 300)
     v.exhaustive = True
